@@ -3,7 +3,13 @@
    one-shot entry points, which are literally those three macros in sequence.
 
    One semantics for the four families (the correspondence harness runs each of them, and
-   compares the context after init and after every update).  The block cipher under the
+   compares the context after init and after every update), up to one policy in which they
+   differ: whether the LAST full block of an update is folded into the hash at once, or kept
+   as an open block of 16 bytes (partial_block_length = 16: hash xor-ed with the block, the
+   multiply pending).  gcm_vaes_avx512.inc does the latter exactly when 256 bytes remain after
+   PARTIAL_BLOCK (INITIAL_BLOCKS_PARTIAL with 16 blocks, reached from GCM_ENC_DEC_SMALL);
+   sse/avx_gen2/avx_gen4 never do.  The policy enters as the Section variable defer (a function
+   of the number of bytes left after PARTIAL_BLOCK); the theorems hold for every policy.  The block cipher under the
    expanded key enters as the Section variable E; the hash key is H = E(0^128) (the shifted
    powers of H kept in isal_gcm_key_data are an internal of each family and not modelled).
 
@@ -15,7 +21,8 @@
      pb_enc_key             E(K, counter block) of the open block, memory order
      orig_IV                IV || 00 00 00 01, memory order
      cur_counter            the last counter block used, BYTE-REFLECTED
-     pb_len                 number of bytes already consumed of the open block (0..15)
+     pb_len                 number of bytes already consumed of the open block (0..15; 16
+                            when a full block is kept open, see defer)
    gcm_ctx_bytes is the 88-byte image of the struct.  No proofs in this file. *)
 From Coq Require Import NArith List Bool Arith.
 From ISAL Require Import Base.Words Base.ListUtil Spec.AES Spec.GF128 Spec.GCM.
@@ -44,6 +51,8 @@ Section GcmStream.
 Variable E : list N -> list N.
 (* the hash key as isal_gcm_key_data holds it after the precompute: gcm_precomp below *)
 Variable H : list N.
+(* does this family keep the last full block open when n bytes are left after PARTIAL_BLOCK? *)
+Variable defer : nat -> bool.
 
 (* GHASH_MUL by the hash key, on blocks in the standard's byte order *)
 Definition gmul (y : list N) : list N := gf128_mul_bytes y H.
@@ -99,7 +108,30 @@ Definition gcm_partial_block (enc : bool) (c : gcm_ctx) (data : list N)
                   (cur_counter c) (r + length data), o, skipn k data)
   end.
 
-(* GCM_ENC_DEC (= one update call).  Returns (ctx', output bytes). *)
+(* the part of GCM_ENC_DEC after PARTIAL_BLOCK: full blocks, then a new open block.
+   Returns (ctx', output bytes). *)
+Definition gcm_main (enc : bool) (c2 : gcm_ctx) (rest : list N) : gcm_ctx * list N :=
+  let nblk := (length rest / 16)%nat in
+  let nfull := if (defer (length rest) && (0 <? nblk) && (length rest mod 16 =? 0))%nat
+               then (nblk - 1)%nat else nblk in
+  let '(out2, (ctr, y)) :=
+    gcm_bulk enc (rev (cur_counter c2)) (rev (aad_hash c2)) (chunks 16 (firstn (16 * nfull) rest)) in
+  let tail := skipn (16 * nfull) rest in
+  match tail with
+  | [] =>
+    (mk_gcm_ctx (rev y) (aad_length c2) (in_length c2) (pb_enc_key c2) (orig_IV c2) (rev ctr)
+                (pb_len c2), out2)
+  | _ =>
+    let ctr1 := inc32 ctr in
+    let ks := E ctr1 in
+    let o := xorb_list tail ks in
+    let cb := if enc then o else tail in
+    (mk_gcm_ctx (rev (xorb_list y (pad16 cb))) (aad_length c2) (in_length c2) ks (orig_IV c2)
+                (rev ctr1) (length tail), out2 ++ o)
+  end.
+
+(* GCM_ENC_DEC (= one update call): nothing for len = 0; else in_length += len,
+   PARTIAL_BLOCK, the rest.  Returns (ctx', output bytes). *)
 Definition gcm_update (enc : bool) (c : gcm_ctx) (data : list N) : gcm_ctx * list N :=
   match data with
   | [] => (c, [])
@@ -107,22 +139,8 @@ Definition gcm_update (enc : bool) (c : gcm_ctx) (data : list N) : gcm_ctx * lis
     let c1 := mk_gcm_ctx (aad_hash c) (aad_length c) (add64 (in_length c) (N.of_nat (length data)))
                          (pb_enc_key c) (orig_IV c) (cur_counter c) (pb_len c) in
     let '(c2, out1, rest) := gcm_partial_block enc c1 data in
-    let nfull := (length rest / 16)%nat in
-    let '(out2, (ctr, y)) :=
-      gcm_bulk enc (rev (cur_counter c2)) (rev (aad_hash c2)) (chunks 16 (firstn (16 * nfull) rest)) in
-    let tail := skipn (16 * nfull) rest in
-    match tail with
-    | [] =>
-      (mk_gcm_ctx (rev y) (aad_length c2) (in_length c2) (pb_enc_key c2) (orig_IV c2) (rev ctr)
-                  (pb_len c2), out1 ++ out2)
-    | _ =>
-      let ctr1 := inc32 ctr in
-      let ks := E ctr1 in
-      let o := xorb_list tail ks in
-      let cb := if enc then o else tail in
-      (mk_gcm_ctx (rev (xorb_list y (pad16 cb))) (aad_length c2) (in_length c2) ks (orig_IV c2)
-                  (rev ctr1) (length tail), out1 ++ out2 ++ o)
-    end
+    let '(c3, out23) := gcm_main enc c2 rest in
+    (c3, out1 ++ out23)
   end.
 
 Definition gcm_update_enc := gcm_update true.
@@ -176,9 +194,15 @@ End GcmStream.
 (* _aes_gcm_precomp_{128,256}: the hash key H = E(K, 0^128) *)
 Definition gcm_precomp (E : list N -> list N) : list N := E (zeros 16).
 
+(* the two policies in the library *)
+Definition defer_none (n : nat) : bool := false.            (* sse, avx_gen2, avx_gen4 *)
+Definition defer_vaes (n : nat) : bool := Nat.eqb n 256.    (* vaes_avx512 *)
+
 (* instances over the FIPS-197 cipher with an expanded key *)
 Definition gcm_init_aes (rks : list (list N)) := gcm_init (gcm_precomp (cipher rks)).
-Definition gcm_update_aes (rks : list (list N)) := gcm_update (cipher rks) (gcm_precomp (cipher rks)).
+Definition gcm_update_aes (rks : list (list N)) := gcm_update (cipher rks) (gcm_precomp (cipher rks)) defer_none.
 Definition gcm_finalize_aes (rks : list (list N)) := gcm_finalize (cipher rks) (gcm_precomp (cipher rks)).
-Definition gcm_oneshot_aes (rks : list (list N)) := gcm_oneshot (cipher rks) (gcm_precomp (cipher rks)).
-Definition gcm_stream_aes (rks : list (list N)) := gcm_stream (cipher rks) (gcm_precomp (cipher rks)).
+Definition gcm_oneshot_aes (rks : list (list N)) := gcm_oneshot (cipher rks) (gcm_precomp (cipher rks)) defer_none.
+Definition gcm_stream_aes (rks : list (list N)) := gcm_stream (cipher rks) (gcm_precomp (cipher rks)) defer_none.
+Definition gcm_oneshot_aes_vaes (rks : list (list N)) := gcm_oneshot (cipher rks) (gcm_precomp (cipher rks)) defer_vaes.
+Definition gcm_stream_aes_vaes (rks : list (list N)) := gcm_stream (cipher rks) (gcm_precomp (cipher rks)) defer_vaes.
